@@ -846,6 +846,14 @@ def gen_malformed(rng, version, sym):
                            "a;b;c;d;e;f\n", "1;1;1;0;2;1;1\n", "ü;1;1;0;0;x\n"])
     if r < 0.45:
         # well-formed frame, header out of range for the version
+        if rng.random() < 0.4:
+            # every field in range on its own, the combination not valid: internal and stream frames on an
+            # ordinary child, set / req on child 255, from known nodes and from ids nobody has presented
+            typ = rng.choice([1, 2, 3, 3, 4, 4])
+            child = rng.choice([255]) if typ in (1, 2) else rng.choice([0, 1, 7, 254])
+            sub = rng.randrange(0, 8) if typ == 4 else rng.choice([0, 1, 2, 3, 4, 6, 11, 13, 18, 22, 32, rng.randrange(0, 40)])
+            return (f"{rng.choice([node, node, 12, 77, 200])};{child};{typ};{rng.choice([0, 0, 1])};{sub};"
+                    f"{rng.choice(PAYLOAD_POOL + ['', '', 'beep', '0100010000000000'])}\n")
         return (f"{rng.choice([node, 256, -1, 1000])};{rng.choice([0, 255, 256, -1])};"
                 f"{rng.choice([0, 1, 2, 3, 4, 5, -1])};{rng.choice([0, 1, 2, -1])};"
                 f"{rng.choice([0, 1, 16, 22, 32, 33, 34, 47, 48, 56, 57, 99, -1])};{rng.choice(PAYLOAD_POOL)}\n")
